@@ -263,6 +263,9 @@ void* heap_malloc(int mgr, size_t size, bool zero, const char* what) {
         memset(a.shadow + off + size, perm(0, RS_REDZONE), end - (off + size) + rz);
         a.used = end + rz;
         if (a.used > a.hwm) a.hwm = a.used;
+        // red-zone pattern: the independent check (on free and at the end of the run) for stores the monitor cannot see
+        memset((void*)(a.base + start), 0xFB, rz);
+        memset((void*)(a.base + off + size), 0xFB, end - (off + size) + rz);
     }
     Block b; b.off = off; b.size = (uint32_t)size; b.serial = ++g.serial; b.mgr = (int16_t)mgr;
     b.tag = (int16_t)c->tag; b.op = c->op; b.req = c->req_count; b.live = 1; b.task = (uint8_t)c->task;
@@ -306,6 +309,21 @@ Block* heap_find_containing(const void* p) {
     return best;
 }
 
+bool heap_redzones_intact(const Block& b) {
+    Arena& a = g_arena[A_HEAP];
+    const uint8_t* m = (const uint8_t*)a.base;
+    size_t rz = (size_t)g.redzone;
+    for (size_t i = 1; i <= 16 && i <= rz; i++) if (m[b.off - i] != 0xFB) return false;
+    size_t end = ((size_t)b.off + b.size + 15) & ~(size_t)15;
+    for (size_t i = b.off + b.size; i < end + 16 && i < end + rz; i++) if (m[i] != 0xFB) return false;
+    return true;
+}
+int heap_check_all_redzones() {
+    int bad = 0;
+    for (auto& b : g.blocks) if (b.live && !heap_redzones_intact(b)) bad++;
+    return bad;
+}
+
 size_t heap_usable(const void* p) {
     uintptr_t a = (uintptr_t)p;
     if (a - g_arena[A_HEAP].base >= g_arena[A_HEAP].size) return 0;
@@ -342,8 +360,13 @@ void heap_free(int mgr, void* p) {
         violate(V_FOREIGN_FREE, "blk#" + std::to_string(b->serial) + " of manager m" + std::to_string(b->mgr) + " released through m" + std::to_string(mgr), true);
         return;
     }
-    b->live = 0; g.live_blocks--; g.hs.frees++;
     Arena& a = g_arena[A_HEAP];
+    if (!heap_redzones_intact(*b)) {
+        c->in_call = saved_in;
+        violate(V_HEAP_OVERFLOW, "red zone of blk#" + std::to_string(b->serial) + " (size " + std::to_string(b->size) + ") was overwritten by code the monitor does not see", true);
+        return;
+    }
+    b->live = 0; g.live_blocks--; g.hs.frees++;
     if (b->size) {
         memset((void*)(a.base + b->off), 0xDD, b->size);
         memset(a.shadow + b->off, perm(0, RS_FREED), b->size);
@@ -457,7 +480,7 @@ void check_access(uintptr_t a, size_t n, bool store) {
 void call_begin(int op, int tag, int expect_mgr, const FaultPlan& f) {
     CallCtx* c = g.cur;
     c->op = op; c->tag = tag; c->expect_mgr = expect_mgr; c->fault = f;
-    c->req_count = 0; c->free_count = 0; c->fired = 0;
+    c->req_count = 0; c->free_count = 0; c->fired = 0; c->steps = 0;
 }
 void call_end() {
     CallCtx* c = g.cur;
@@ -521,6 +544,10 @@ void __sanitizer_cov_trace_pc_guard_init(uint32_t* start, uint32_t* stop) {
 void __sanitizer_cov_pcs_init(const uintptr_t* beg, const uintptr_t* end) { if (!g_pcs_beg) { g_pcs_beg = beg; g_pcs_end = end; } }
 void __sanitizer_cov_trace_pc_guard(uint32_t* guard) {
     g.edges++;
+    if (g.cur->in_call && ++g.cur->steps > 30000000ull) {   // step budget per library call: a call that does not return is a crash-class violation
+        g.cur->steps = 0;
+        violate(V_CRASH, "library call exceeded the step budget of 30M control-flow edges (no progress)", true);
+    }
     g_guard_hit[*guard] = 1;
     if (g.yield_hook) g.yield_hook((int)*guard);
 }
